@@ -39,6 +39,37 @@ CHECKS['C01'] = (
     'instances run equals the spawn-on-demand closure computed from the '
     'graph term and the scheduler has shut itself down.', A_NOTE)
 
+CHECKS['C02'] = (
+    'schedmc', 'model_checking', A_TECH, '6/C02',
+    'All interleavings and outcomes (success, failure, submit-failure) of '
+    'job events, with retry delays released by clock jumps, on AND/OR/'
+    'inter-cycle graphs: every jobs-submit is counted per instance against '
+    '(N+1)(M+1); a resubmission is legal only after the previous job really '
+    'failed; failed/submit-failed outputs may complete only when the '
+    'environment has seen N+1 failed jobs / M+1 failed submissions.', A_NOTE)
+CHECKS['C03'] = (
+    'schedmc', 'model_checking', A_TECH, '6/C03',
+    'Exploration with incomplete finishes (failure with success required, '
+    'partial custom outputs), runahead limits and a stop point: the pool is '
+    'inspected at every automatic shutdown and every stall report, every '
+    'quiescent state is searched for a ready-but-unsubmitted task, and the '
+    'terminal verdict (shutdown vs stall) must equal the verdict of the '
+    'reference closure over the realised outcomes.', A_NOTE)
+CHECKS['C42'] = (
+    'hist', 'model_checking',
+    'explicit-state BFS over API/environment histories of the real '
+    'SubProcPool with fake processes and a virtual clock',
+    '6/C42',
+    'Every operation history (puts of short/slow/failing/255/timing-out/'
+    'jobs-submit commands, process(), process exits, clock jumps, '
+    'set_stopping, close, terminate) up to depth 5 (quick) / 7 (thorough), '
+    'pool size 1-2, is executed on the real SubProcPool; a harness ledger '
+    'checks <=1 callback per command always and exactly 1 when the pool is '
+    'empty or terminated, occupancy <= size, and no jobs-submit start after '
+    'stopping. States deduplicated; seam counters guard against vacuity.',
+    'Real process creation and pipe back-pressure are not explored; pool '
+    'size and time-out are set on the pool object; virtual time.')
+
 NOT_BUILT_REASON = (
     'check not built yet in this session (designed in DESIGN.md section 6); '
     'no verdict is claimed')
